@@ -401,6 +401,12 @@ func (pg *peerGater) OnNewOutboundStream(p peer.ID, proto protocol.ID) {
 	defer pg.Unlock()
 
 	st := pg.getPeerStats(p)
+	if _, ok := pg.peerStats[p]; !ok {
+		// The peer has gone before the event loop learnt of the stream. The
+		// closing of the stream will be announced too, and removePeerStats needs
+		// the entry to undo what is counted here.
+		pg.peerStats[p] = st
+	}
 	st.connected++
 	pg.peerConns[p]++
 }
